@@ -4,6 +4,7 @@ import (
 	"fmt"
 	"go/token"
 	"go/types"
+	"strings"
 
 	"golang.org/x/tools/go/ssa"
 )
@@ -63,7 +64,13 @@ func lockEffect(lock bool) effectFn {
 		m := fe.val(args[0])
 		h := heldComp(fe, st)
 		if lock {
-			fe.safetyProps(st, "relock", pos, tNot(tSel(h, m)), []string{"C15", "C20"})
+			// locking a mutex this goroutine already holds blocks forever: part of the cache's own
+			// contract (C20); elsewhere it belongs to C12, which is not claimed (schedules)
+			props := []string{"C12"}
+			if strings.HasSuffix(fe.pkgPath, "internal/cache") {
+				props = []string{"C20"}
+			}
+			fe.safetyProps(st, "relock", pos, tNot(tSel(h, m)), props)
 		}
 		fe.setComp(st, "held", arrSort(sInt, sBool), tStore(h, m, tBool(lock)))
 		return nil
@@ -80,33 +87,35 @@ func (fe *FnEnc) safetyProps(st *State, kind string, pos token.Pos, goal Term, p
 
 func init() {
 	effects = map[string]effectFn{
-		"(*sync.Mutex).Lock":       lockEffect(true),
-		"(*sync.Mutex).Unlock":     lockEffect(false),
-		"(*sync.WaitGroup).Add":    noEffect,
-		"(*sync.WaitGroup).Done":   noEffect,
-		"(*sync.WaitGroup).Wait":   noEffect,
-		"strings.Compare":          effStringsCompare,
-		"strings.Index":            effStringsIndex,
-		"strings.Split":            effStringsSplit,
-		"strings.LastIndex":        effStringsIndex,
-		"strings.HasPrefix":        ufEffect("strings.HasPrefix", sBool),
-		"strings.ToLower":          ufEffect("strings.ToLower", sStr),
-		"strings.TrimSpace":        ufEffect("strings.TrimSpace", sStr),
-		"strings.Trim":             ufEffect("strings.Trim", sStr),
-		"path.Clean":               ufEffect("path.Clean", sStr),
-		"strings.Cut":              ufTuple("strings.Cut", sStr, sStr, sBool),
-		"strconv.Atoi":             ufTuple("strconv.Atoi", sInt, sIface),
-		"strconv.ParseInt":         ufTuple("strconv.ParseInt", sInt, sIface),
-		"(*regexp.Regexp).MatchString": effRegexpMatch,
-		"github.com/opencontainers/go-digest.Parse":             effDigestParse,
-		"(github.com/opencontainers/go-digest.Digest).Validate": effDigestValidate,
-		"(github.com/opencontainers/go-digest.Digest).String":   func(fe *FnEnc, st *State, c *ssa.Function, a []RV, p token.Pos) []RV { return one(fe.val(a[0])) },
-		"(github.com/opencontainers/go-digest.Digest).Algorithm": ufEffect("digest.alg", sStr),
-		"(github.com/opencontainers/go-digest.Digest).Encoded":   ufEffect("digest.hex", sStr),
-		"(github.com/opencontainers/go-digest.Algorithm).String": func(fe *FnEnc, st *State, c *ssa.Function, a []RV, p token.Pos) []RV { return one(fe.val(a[0])) },
+		"(*sync.Mutex).Lock":                        lockEffect(true),
+		"(*sync.Mutex).Unlock":                      lockEffect(false),
+		"(*sync.WaitGroup).Add":                     noEffect,
+		"(*sync.WaitGroup).Done":                    noEffect,
+		"(*sync.WaitGroup).Wait":                    noEffect,
+		"strings.Compare":                           effStringsCompare,
+		"strings.Index":                             effStringsIndex,
+		"strings.Split":                             effStringsSplit,
+		"fmt.Errorf":                                effNonNilErr,
+		"errors.New":                                effNonNilErr,
+		"strings.LastIndex":                         effStringsIndex,
+		"strings.HasPrefix":                         ufEffect("strings.HasPrefix", sBool),
+		"strings.ToLower":                           ufEffect("strings.ToLower", sStr),
+		"strings.TrimSpace":                         ufEffect("strings.TrimSpace", sStr),
+		"strings.Trim":                              ufEffect("strings.Trim", sStr),
+		"path.Clean":                                ufEffect("path.Clean", sStr),
+		"strings.Cut":                               ufTuple("strings.Cut", sStr, sStr, sBool),
+		"strconv.Atoi":                              ufTuple("strconv.Atoi", sInt, sIface),
+		"strconv.ParseInt":                          ufTuple("strconv.ParseInt", sInt, sIface),
+		"(*regexp.Regexp).MatchString":              effRegexpMatch,
+		"github.com/opencontainers/go-digest.Parse": effDigestParse,
+		"(github.com/opencontainers/go-digest.Digest).Validate":     effDigestValidate,
+		"(github.com/opencontainers/go-digest.Digest).String":       func(fe *FnEnc, st *State, c *ssa.Function, a []RV, p token.Pos) []RV { return one(fe.val(a[0])) },
+		"(github.com/opencontainers/go-digest.Digest).Algorithm":    ufEffect("digest.alg", sStr),
+		"(github.com/opencontainers/go-digest.Digest).Encoded":      ufEffect("digest.hex", sStr),
+		"(github.com/opencontainers/go-digest.Algorithm).String":    func(fe *FnEnc, st *State, c *ssa.Function, a []RV, p token.Pos) []RV { return one(fe.val(a[0])) },
 		"(github.com/opencontainers/go-digest.Algorithm).Available": ufEffect("digest.algAvailable", sBool),
-		"errors.Is":   effErrorsIs,
-		"time.Now":    effTimeNow,
+		"errors.Is": effErrorsIs,
+		"time.Now":  effTimeNow,
 		"(time.Time).Before": func(fe *FnEnc, st *State, c *ssa.Function, a []RV, p token.Pos) []RV {
 			return one(tCmp("<", fe.val(a[0]), fe.val(a[1])))
 		},
@@ -126,8 +135,8 @@ func init() {
 			now := effTimeNow(fe, st, c, nil, p)[0].T
 			return one(tArith("-", now, fe.val(a[0])))
 		},
-		"sort.Strings": effSortStrings,
-		"errors.Join":  effErrorsJoin,
+		"sort.Strings":        effSortStrings,
+		"errors.Join":         effErrorsJoin,
 		"(*time.Timer).Stop":  effTimerSet(false),
 		"(*time.Timer).Reset": effTimerSet(true),
 		"time.AfterFunc":      effAfterFunc,
@@ -148,6 +157,7 @@ func init() {
 		"encoding/json.Marshal":               effJSONMarshal,
 		"io.Copy":                             effIOCopy,
 		"io.ReadAll":                          effIOReadAll,
+		"io.LimitReader":                      effLimitReader,
 		"net/http.ServeContent":               effServeContent,
 		"net/url.JoinPath":                    effFaultOnErr("url.JoinPath", sStr),
 		"(*net/url.URL).JoinPath":             effFreshNonNil,
@@ -155,6 +165,13 @@ func init() {
 		"(net/url.Values).Set":                noEffect,
 		"(net/url.Values).Encode":             ufFreshStr,
 		"(*net/http.Request).Context":         noEffect,
+		// command line flags: registration stores the default through the pointer and records the
+		// target of the flag name in the ghost registry FLAGS (C19 wiring)
+		"(*github.com/spf13/pflag.FlagSet).BoolVar":        effFlagVar,
+		"(*github.com/spf13/pflag.FlagSet).IntVar":         effFlagVar,
+		"(*github.com/spf13/pflag.FlagSet).StringVar":      effFlagVar,
+		"(*github.com/spf13/pflag.FlagSet).DurationVar":    effFlagVar,
+		"(*github.com/spf13/pflag.FlagSet).StringArrayVar": effFlagVar,
 	}
 }
 
@@ -546,6 +563,7 @@ func effIOCopy(fe *FnEnc, st *State, callee *ssa.Function, args []RV, pos token.
 	h := fe.getComp(st, bcWritten, srt)
 	k := ifVal(fe.val(args[0]))
 	fe.setComp(st, bcWritten, srt, tStore(h, k, tArith("+", tSel(h, k), tInt(1))))
+	fe.havocComp(st, "M.BlobCreator.size", srt)
 	f := fe.getComp(st, "fault", sBool)
 	if fe.dry {
 		fe.setComp(st, "fault", sBool, f)
@@ -564,10 +582,22 @@ func effIOReadAll(fe *FnEnc, st *State, callee *ssa.Function, args []RV, pos tok
 	f := fe.getComp(st, "fault", sBool)
 	if fe.dry {
 		fe.setComp(st, "fault", sBool, f)
+		fe.setComp(st, "truncated", sBool, fe.getComp(st, "truncated", sBool))
 		return []RV{{T: nilSlice, Valid: true}, {T: nilIface, Valid: true}}
 	}
 	b := fe.fresh("readall", sSlice)
 	fe.emit("(assert " + fe.wf(types.NewSlice(types.Typ[types.Byte]), b, fe.alloc(st), 0).S + ")")
+	// reading through a LimitReader: at most the limit; the source was cut short only if the limit was reached
+	{
+		rv := ifVal(fe.val(args[0]))
+		lim := tSel(fe.getComp(st, "LIM", arrSort(sInt, sInt)), rv)
+		isl := tSel(fe.getComp(st, "LIMSET", arrSort(sInt, sBool)), rv)
+		t := fe.fresh("truncated", sBool)
+		fe.emit(fmt.Sprintf("(assert (=> %s (and (<= (s_len %s) %s) (=> (< (s_len %s) %s) (not %s)))))", isl.S, b.S, lim.S, b.S, lim.S, t.S))
+		fe.emit(fmt.Sprintf("(assert (=> (not %s) (not %s)))", isl.S, t.S))
+		tr := fe.getComp(st, "truncated", sBool)
+		fe.setComp(st, "truncated", sBool, tOr(tr, t))
+	}
 	err := fe.fresh("readall.err", sIface)
 	fe.emit("(assert (=> (= (i_typ " + err.S + ") 0) (= (i_val " + err.S + ") 0)))")
 	fe.setComp(st, "fault", sBool, tOr(f, tNot(tEq(err, nilIface))))
@@ -649,4 +679,39 @@ func effStringsSplit(fe *FnEnc, st *State, callee *ssa.Function, args []RV, pos 
 	fe.emit("(assert " + fe.wf(types.NewSlice(types.Typ[types.String]), r, fe.alloc(st), 0).S + ")")
 	fe.emit("(assert (>= (s_len " + r.S + ") 1))")
 	return one(r)
+}
+
+// fmt.Errorf / errors.New return a new, non-nil error (wrapping is not modelled)
+func effNonNilErr(fe *FnEnc, st *State, callee *ssa.Function, args []RV, pos token.Pos) []RV {
+	r := fe.newRef(st)
+	fe.declConst("typ.error.value", sInt)
+	if !fe.dry {
+		fe.emit("(assert (> typ.error.value 0))")
+	}
+	return one(mkIface(Term{"typ.error.value", sInt}, r))
+}
+
+// io.LimitReader(r, n): a new reader with a ghost limit
+func effLimitReader(fe *FnEnc, st *State, callee *ssa.Function, args []RV, pos token.Pos) []RV {
+	r := fe.newRef(st)
+	ls, bs := arrSort(sInt, sInt), arrSort(sInt, sBool)
+	fe.setComp(st, "LIM", ls, tStore(fe.getComp(st, "LIM", ls), r, fe.val(args[1])))
+	fe.setComp(st, "LIMSET", bs, tStore(fe.getComp(st, "LIMSET", bs), r, tTrue))
+	fe.declConst("typ.limitreader", sInt)
+	if !fe.dry {
+		fe.emit("(assert (> typ.limitreader 0))")
+	}
+	return one(mkIface(Term{"typ.limitreader", sInt}, r))
+}
+
+// pflag XxxVar(p, name, value, usage): *p = value; FLAGS[name] = p
+func effFlagVar(fe *FnEnc, st *State, callee *ssa.Function, args []RV, pos token.Pos) []RV {
+	pT := callee.Signature.Params().At(0).Type()
+	if a := fe.addrOf(args[1], pT); a != nil {
+		fe.store(st, a, fe.val(args[3]))
+	}
+	srt := arrSort(sStr, sInt)
+	h := fe.getComp(st, "FLAGS", srt)
+	fe.setComp(st, "FLAGS", srt, tStore(h, fe.val(args[2]), fe.val(args[1])))
+	return nil
 }
